@@ -339,6 +339,9 @@ class NumpyShim:
 
     def __init__(self, **over):
         self._over = over
+        for _k, _v in over.items():          # overrides win over the shim's own methods as well
+            if not _k.startswith("linalg_") and _k not in ("random", "fft"):
+                self.__dict__[_k] = _v
         self.linalg = _Linalg(self)
         self.random = over.get("random", rnp.random)
         self.fft = over.get("fft", rnp.fft)
